@@ -948,6 +948,11 @@ def stress_defs(prefix='K'):
     p2 = Def(prefix + 'P2', False, 'none', [], 1, [{'name': 'A', 'bounds': [], 'default': None, 'role': 'eps'}, {'name': 'B', 'bounds': [], 'default': None, 'role': 'eps'}], [],
              [(prefix + 'P2', 'named', [('a', ('param', 0)), ('b', ('param', 1))])])
     defs.append(p2)
+    # round 6: deep-copy enums with a primitive representation (the variant tag in the stream stays a usize index)
+    for nm, rp in (('X2', 'u8'), ('X3', 'u16'), ('X4', 'i8')):
+        x = Def(prefix + nm, True, 'none', [rp], 1, [], [],
+                [('A', 'unit', []), ('B', 'tuple', [('g0', P('u16'))]), ('C', 'named', [('s', ('ty', Str())), ('n', P('u8'))]), ('D', 'unit', [])])
+        defs.append(x)
     return defs
 
 
